@@ -6,6 +6,7 @@ import (
 	"io"
 	"strings"
 	"text/scanner"
+	"unicode/utf8"
 )
 
 type lexFn func(*lexer) lexFn
@@ -190,7 +191,13 @@ func (l *lexer) errorf(format string, args ...any) lexFn {
 func (l *lexer) position() (int, int) {
 	newLinesInString := strings.Count(l.s, "\n")
 	line := len(l.pos) - newLinesInString
-	column := 1 + (l.pos[line-1]) - len(l.s)
+	// pos counts the runes read on each line; only the first line of the
+	// current string lies on the line the token starts on
+	first := l.s
+	if i := strings.IndexByte(l.s, '\n'); i >= 0 {
+		first = l.s[:i+1]
+	}
+	column := 1 + (l.pos[line-1]) - utf8.RuneCountInString(first)
 	return line, column
 }
 
